@@ -137,4 +137,27 @@ PROPS["C03"] = {
     "level_note": "Collaborators havocked; scan is syntactic; engine and z3 trusted.",
 }
 
+PROPS["C13"] = {
+    "contracts": ["contracts/C13_lysosome.py"],
+    "level": "other",
+    "extra": [{"name": "C13/bounded[histories depth 3]", "kind": "bounded", "tiers": ("quick",), "cmd": ["/venv/bin/python", "native/c13_bounded.py", "3"]},
+              {"name": "C13/bounded[histories depth 5]", "kind": "bounded", "tiers": ("thorough",), "timeout": 3000,
+               "cmd": ["/venv/bin/python", "native/c13_bounded.py", "5"]}],
+    "assumptions": ["max_queue_size >= 2, auto_digest_threshold >= 1",
+                    "the digester table is the default one built by the real __init__ (re-derived symbolically every run); custom digesters are havocked callables in the bounded stand-in only",
+                    "waste content is opaque user data: `in`, subscripts, attribute reads and calls on it may return anything or raise",
+                    "list comprehensions over the symbolic queue (autophagy) are abstracted to a sub-sequence of unknown elements (length relation only)",
+                    "thread schedules are NOT explored: 'from any number of threads' is covered by the lock-ownership clause (guarded fields only touched under the lock) "
+                    "and the lock-reentry clause, plus the trusted reduction argument (critical sections of a data-race-free program serialise)",
+                    "AutophagyDaemon is a client of ingest(): covered through ingest's contract, its own pruning logic is not under contract"],
+    "trusted_base": ["Lipton-style reduction argument for lock-protected sections (not mechanised)", "threading.Lock/RLock semantics"],
+    "explanation": "Deductive part: every with-block and every call into a lock-taking callee carries a lock-reentry obligation (so each call returns, for any "
+                   "history); guarded fields carry ownership obligations; the queue bound and per-call conservation (taken = disposed + reported errors; expired = "
+                   "length difference; ingest counts one) are invariants/postconditions; toxic items recycle nothing and reach the callback exactly once per "
+                   "digestion (loop step clauses). Bounded part: operation histories of depth 3 (5 thorough) with raising digesters under a watchdog and a spy "
+                   "subclass detecting unlocked writes.",
+    "level_text": "Mixed proof + bounded + trusted reduction: schedules are out of reach of contracts; the discipline that implies atomicity is proved instead.",
+    "level_note": "No schedule exploration; opaque waste content; default digester table; engine and z3 trusted.",
+}
+
 NOT_APPLICABLE = {}
